@@ -21,7 +21,7 @@ EXPECTED = ("format(src) parses to the same syntax tree (positions ignored), has
             "and the same literal texts, format(format(src)) = format(src), and nothing panics")
 
 
-CAP = 25
+CAP = 400
 
 
 def _run_model(ctx, model, infile, outfile, args=()):
